@@ -7,8 +7,8 @@ ROOT = pathlib.Path(__file__).resolve().parent.parent
 SPEC = ROOT / "spec"
 JAVA_SRC = ROOT / "java"
 JAVA_OUT = ROOT / "build" / "classes"
-EVIDENCE = ROOT / "evidence"
-REPLAYS = ROOT / "replays"
+EVIDENCE = pathlib.Path(os.environ.get("MBV_EVIDENCE_DIR", ROOT / "evidence"))
+REPLAYS = pathlib.Path(os.environ.get("MBV_REPLAYS_DIR", ROOT / "replays"))
 TLA_JAR = pathlib.Path("/opt/veriftools/tla/tla2tools.jar")
 CM_JAR = pathlib.Path("/opt/veriftools/tla/CommunityModules-deps.jar")
 REPO = pathlib.Path(os.environ.get("BTCLIB_REPO", "/repo"))
